@@ -6,11 +6,12 @@
 package keys_and_cert
 
 //@ import "github.com/go-i2p/common/certificate"
+//@ import i2pd "github.com/go-i2p/common/data"
 //@ import "github.com/go-i2p/common/key_certificate"
 
 // declared sizes of the two keys
-//@ spec func CS(k *KeysAndCert) int { return key_certificate.SpecCryptoPubLen(key_certificate.CryptoType(k.KeyCertificate)) }
-//@ spec func SS(k *KeysAndCert) int { return key_certificate.SpecSigPubLen(key_certificate.SigType(k.KeyCertificate)) }
+//@ spec func CS(k *KeysAndCert) int { return i2pd.SpecCryptoPubLen(key_certificate.CryptoType(k.KeyCertificate)) }
+//@ spec func SS(k *KeysAndCert) int { return i2pd.SpecSigPubLen(key_certificate.SigType(k.KeyCertificate)) }
 
 // Representation invariant of every value the parsers of this package return.
 //@ spec func KacInv(k *KeysAndCert) bool {
